@@ -168,3 +168,77 @@
         for f in failures.iter().take(8) { println!("FAILING INPUT: {}", f); }
         assert!(failures.is_empty());
     }
+
+    /// BOUNDED: user dictionaries over the five-row system dictionary.  Every reference list of a user row (dictionary form, A units,
+    /// B units, word structure) is replaced by every list of 1..=3 references over {valid / dangling system ids, valid / dangling
+    /// user ids}: a list that contains a dangling reference at ANY position must be refused; an accepted dictionary must load with
+    /// readable word info for the row.
+    #[test]
+    fn verif_oracle_user_dictionary_references() {
+        let sys = build((BASE.join("\n") + "\n").as_bytes()).expect("base lexicon");
+        let mut cfgb = ConfigTestSupport::new();
+        cfgb.make_system().write_all(&sys).unwrap();
+        let jd = JapaneseDictionary::from_cfg(&cfgb.config()).unwrap();
+        let alphabet: [(&str, bool); 8] = [("0", true), ("4", true), ("5", false), ("9999", false), ("U0", true), ("U1", true), ("U2", false), ("U9999", false)];
+        let mut lists: Vec<(String, bool)> = Vec::new();
+        for a in alphabet.iter() {
+            lists.push((a.0.to_string(), a.1));
+            for b in alphabet.iter() {
+                lists.push((format!("{}/{}", a.0, b.0), a.1 && b.1));
+                for c in alphabet.iter() { lists.push((format!("{}/{}/{}", a.0, b.0, c.0), a.1 && b.1 && c.1)); }
+            }
+        }
+        let mut failures: Vec<String> = Vec::new();
+        let (mut cases, mut accepted, mut known_dic_form) = (0, 0, 0);
+        for col in [13usize, 15, 16, 17] {
+            for (list, valid) in lists.iter() {
+                if col == 13 && list.contains('/') { continue; }
+                cases += 1;
+                let mut f: Vec<String> = "京都に,6,2,100,京都に,名詞,固有名詞,地名,一般,*,*,キョウトニ,京都に,*,C,*,*,*,*".split(',').map(|x| x.to_string()).collect();
+                f[col] = list.clone();
+                let lex = format!("すだち,6,6,100,すだち,名詞,固有名詞,地名,一般,*,*,スダチ,すだち,*,A,*,*,*,*\n{}\n", f.join(","));
+                eprintln!("TRYING user lexicon {:?}", lex);
+                let r = std::panic::catch_unwind(std::panic::AssertUnwindSafe(|| -> Result<Vec<u8>, String> {
+                    let mut dic = DictBuilder::new_user(&jd);
+                    dic.read_lexicon(lex.as_bytes()).map_err(|e| format!("{:?}", e))?;
+                    dic.resolve().map_err(|e| format!("{:?}", e))?;
+                    let mut out: Vec<u8> = Vec::new();
+                    dic.compile(&mut out).map_err(|e| format!("{:?}", e))?;
+                    Ok(out)
+                }));
+                match r {
+                    Err(_) => if failures.len() < 20 { failures.push(format!("compiling the user lexicon {:?} panics", lex)); },
+                    Ok(Err(_)) => {}
+                    Ok(Ok(bytes)) => {
+                        accepted += 1;
+                        if !*valid { if failures.len() < 20 { failures.push(format!("the user lexicon {:?} (column {} = {:?} contains a reference to a word that does not exist) compiles", lex, col, list)); } continue; }
+                        let r = std::panic::catch_unwind(|| -> Result<(), String> {
+                            let mut cfg2 = ConfigTestSupport::new();
+                            cfg2.make_system().write_all(&sys).map_err(|e| format!("{:?}", e))?;
+                            cfg2.add_user().write_all(&bytes).map_err(|e| format!("{:?}", e))?;
+                            let jd2 = JapaneseDictionary::from_cfg(&cfg2.config()).map_err(|e| format!("load: {:?}", e))?;
+                            let mut ms = MorphemeList::empty(&jd2);
+                            let n = ms.lookup("京都に", InfoSubset::all()).map_err(|e| format!("lookup: {:?}", e))?;
+                            if n == 0 { return Err("the user row is not found".to_string()); }
+                            for m in ms.iter() { let i = m.get_word_info(); let _ = (i.a_unit_split().len(), i.b_unit_split().len(), i.word_structure().len(), m.dictionary_form().len(), m.part_of_speech().len()); }
+                            let tok = StatelessTokenizer::new(&jd2);
+                            let res = tok.tokenize("京都に", Mode::C, false).map_err(|e| format!("analysis: {:?}", e))?;
+                            for m in res.iter() { let _ = (m.surface().len(), m.dictionary_form().len()); }
+                            Ok(())
+                        });
+                        match r {
+                            Ok(Ok(())) => {}
+                            // classified (F21): a dictionary-form reference of a user dictionary is validated as a system / `U` reference
+                            // but resolved by the reader inside the user lexicon itself
+                            Err(_) if col == 13 => { known_dic_form += 1; if known_dic_form == 1 { println!("KNOWN-CLASS user-dictionary-form-reference: the user lexicon {:?} compiles, but reading the word's info panics", lex); } }
+                            Err(_) => if failures.len() < 20 { failures.push(format!("the user lexicon {:?} compiles, but loading or using it panics", lex)); },
+                            Ok(Err(e)) => if failures.len() < 20 { failures.push(format!("the user lexicon {:?} compiles, but {}", lex, e)); },
+                        }
+                    }
+                }
+            }
+        }
+        println!("verif_oracle_user_dictionary_references: {} user lexicons ({} accepted, {} of them with a dictionary-form reference the reader cannot resolve), {} failures", cases, accepted, known_dic_form, failures.len());
+        for f in failures.iter().take(8) { println!("FAILING INPUT: {}", f); }
+        assert!(failures.is_empty());
+    }
